@@ -149,6 +149,12 @@ where
             return Err(());
         }
 
+        // Reject negative (and NaN) entries: they would make the cumulative distribution
+        // non-monotonic even if their sum (or the provided `normalization`) is positive.
+        if !probs.iter().all(|&p| p >= F::zero()) {
+            return Err(());
+        }
+
         let remaining_free_weight =
             wrapping_pow2::<Probability>(PRECISION).wrapping_sub(&probs.len().as_());
         let normalization =
